@@ -63,11 +63,63 @@ func c01HTTP(r *ev.Result) {
 			}
 		}
 	}
+	c01HTTPRefusedStreamer(r)
+	n++
 	r.Evaluations += n
 	r.Distinct += n
 	r.Traces += n
 	r.Set("http_seam_pairs", n)
 	r.Sample(12, map[string]any{"http_seam": []c01Stream{{"i", "k%2Fx"}, {"o", "k%2Fx"}}, "expected": "second accepted (IDs equal after decoding)"})
+}
+
+// c01HTTPRefusedStreamer: a refused /o client that keeps uploading is let go
+// of (net/http gives a returned handler's unread body 256 KiB of grace); the
+// server must have answered by the time 2 MiB were offered.
+func c01HTTPRefusedStreamer(r *ev.Result) {
+	w, err := hworld.Start(hworld.Config{})
+	if nil != err {
+		ev.Broken("%s", err)
+	}
+	defer w.Stop()
+	held, err := c01Stream{"o", "held"}.open(w)
+	if nil != err {
+		ev.Broken("%s", err)
+	}
+	defer held.Close()
+	w.WaitNotice(func(cl opshell.CLine) bool { return strings.Contains(cl.Line, "Output connected") })
+	c2, err := c01Stream{"o", "other"}.open(w)
+	if nil != err {
+		ev.Broken("%s", err)
+	}
+	defer c2.Close()
+	if _, ok := w.WaitNotice(func(cl opshell.CLine) bool { return strings.Contains(cl.Line, "Rejected ") }); !ok {
+		return /* The pair enumeration reports that. */
+	}
+	answered := make(chan error, 1)
+	go func() { _, err := c2.ReadResponse("POST"); answered <- err }()
+	blob := chunk(strings.Repeat("refused upload ", 4096)) /* 60 KiB */
+	sent := 0
+	for i := 0; i < 36; i++ {
+		select {
+		case <-answered:
+			return /* Let go of: fine. */
+		default:
+		}
+		if err := c2.Send(blob); nil != err {
+			return /* Connection closed on us: fine too. */
+		}
+		sent += len(blob)
+	}
+	select {
+	case <-answered:
+	case <-time.After(10 * time.Second):
+		r.Violate(ev.Violation{Signature: "http/refused-upload-never-ends", What: fmt.Sprintf("a refused /o request was still being read after %d bytes of its upload; the attempt is not ended", sent), Kind: "c01http", Replay: map[string]any{"http_seam": []c01Stream{{"o", "held"}, {"o", "other"}}}})
+	}
+	for _, cl := range w.Drain() {
+		if cl.Plain && strings.Contains(cl.Line, "refused upload") {
+			r.Violate(ev.Violation{Signature: "http/refused-output-shown", What: "output of a refused stream was displayed", Kind: "c01http", Replay: map[string]any{"http_seam": []c01Stream{{"o", "held"}, {"o", "other"}}}})
+		}
+	}
 }
 
 func c01HTTPPair(r *ev.Result, first, second c01Stream) {
